@@ -16,7 +16,9 @@ PROPERTY = "C10"
 LEVEL = "exploration"
 RULE = (
     "ECU models = RandomUDSServer for generated seeds and randomness parameters (service / sub-function / identifier sets per session). "
-    "Service scan: session lists (offered, not offered, repeated), skip maps from range expressions incl. bare outer keys, "
+    "Service scan: session lists (offered, not offered, repeated), skip maps from range expressions incl. bare outer keys and keys with an "
+    "empty inner list, a quarter of the cases against an ECU that falls back to the default session after the probes of chosen service ids "
+    "while session checks are on (the scanner has to notice and re-enter the session before the next id), "
     "scan_response_ids, check_session; the real ServicesScanner.run() in-process under virtual time. Ground truth per (session, sid) "
     "comes from a fresh clone of the model forced into that session and asked the probe PDUs in order: result must equal "
     "{(s, sid): s was enterable, sid not skipped, and a probe of length 1/2/3/5 payload bytes is answered by something other than "
